@@ -38,7 +38,9 @@ from c07_gates import kids, strip, loc_off, qual, callee_name, int_value        
 
 ROOT = os.path.dirname(os.path.dirname(os.path.abspath(__file__)))
 FILES = ["adf/ADF_interface.c", "adf/ADF_internals.c", "cgns_io.c"]
-VERSION = "9"
+# the mid-level library: only the call sites of cgio_* are rows (the cg_* / cgi_* call graph above them is not modelled)
+FILES_MLL = ["cgnslib.c", "cgns_internals.c"]
+VERSION = "10"
 
 STATUS_PARAM_NAMES = {"error_return", "err", "error_return_input", "error_ret", "ierr"}
 # system calls (the primitives).  kind 'neg': < 0 is the error; 'count': -1 or a short count is the error
@@ -115,8 +117,9 @@ def merge(*sts):
 
 
 class Walker:
-    def __init__(self, fn, fname, lines, protos, defined):
+    def __init__(self, fn, fname, lines, protos, defined, restricted=False):
         self.fn, self.fname, self.lines, self.protos, self.defined = fn, fname, lines, protos, defined
+        self.restricted = restricted
         self.name = fn["name"]
         self.ret = qual(fn).split("(")[0].strip()
         ps = [(p.get("name"), qual(p)) for p in kids(fn) if p.get("kind") == "ParmVarDecl"]
@@ -125,6 +128,7 @@ class Walker:
             if t.replace(" ", "") == "int*" and n in STATUS_PARAM_NAMES:
                 self.own = "*" + n
         self.style = "ptr" if self.own else ("ret" if self.ret != "void" and self.name not in NOT_STATUS_RET else "none")
+        self.ptr_ret = self.ret.endswith("*")            # a pointer-returning function reports failure with NULL
         self.params = {n for n, _ in ps}
         self.sites = {}          # key (offset) -> dict
         self.order = []
@@ -374,7 +378,10 @@ class Walker:
         proto = self.protos.get(name)
         sidx = proto["status"] if proto else None
         tracked = name in self.defined or sidx is not None or name in SYSCALLS or name.startswith("ADFH_")
-        if name == "set_error" and args:
+        if self.restricted:
+            tracked = name.startswith("cgio_") and name in self.defined
+            sidx = None
+        if name == "set_error" and args and not self.restricted:
             d = self.ev(args[0], st)
             if d[0] == "const":
                 if d[1] != 0:
@@ -729,7 +736,10 @@ class Walker:
         elif d[0] == "loc":
             self.finish(st, self.loc_err(st, d[1]), d[1], line)
         elif d[0] == "const":
-            self.finish(st, d[1] != 0 and self.name not in COUNT_RET or (self.name in COUNT_RET and d[1] < 0), None, line)
+            if self.ptr_ret:
+                self.finish(st, d[1] == 0, None, line)
+            else:
+                self.finish(st, d[1] != 0 and self.name not in COUNT_RET or (self.name in COUNT_RET and d[1] < 0), None, line)
         else:
             self.finish(st, False, None, line)
 
@@ -751,6 +761,8 @@ class Walker:
                 name = callee_name(n)
                 proto = self.protos.get(name) if name else None
                 tracked = name is None or name in self.defined or (proto and proto["status"] is not None) or name in SYSCALLS or name.startswith("ADFH_")
+                if self.restricted:
+                    tracked = bool(name) and name.startswith("cgio_") and name in self.defined
                 if tracked and name and name not in self.defined and proto and proto["status"] is None and proto["ret"] == "void":
                     tracked = False                      # no status and not ours: not a row
                 if tracked and name not in NORETURN and name != "set_error" and self.off(n) not in seen_off:
@@ -771,7 +783,7 @@ class Walker:
 # ------------------------------------------------------------------------------------------------ whole analysis
 def src_hash(repo):
     h = hashlib.sha1(VERSION.encode())
-    for f in FILES + ["adf/ADF_internals.h", "adf/ADF.h", "adfh/ADFH.h", "cgns_io.h"]:
+    for f in FILES + FILES_MLL + ["adf/ADF_internals.h", "adf/ADF.h", "adfh/ADFH.h", "cgns_io.h"]:
         p = os.path.join(repo, "src", f)
         h.update(open(p, "rb").read() if os.path.exists(p) else b"-")
     h.update(open(os.path.abspath(__file__), "rb").read())
@@ -804,9 +816,22 @@ def analyse(repo, impl):
                 fns.append((f, fn, lines))
     # ADFI_stack_control is a macro alias of ADFI_stack_control_body in some builds
     defined = {fn["name"] for _, fn, _ in fns}
+    nmain = len(fns)
+    for f in FILES_MLL:
+        data = open(os.path.join(repo, "src", f), "rb").read()
+        src = data.decode("latin-1")
+        lines = [m.start() for m in re.finditer("\n", src)]
+        for fn in stream_functions(repo, impl, f):
+            name = fn.get("name")
+            if not name or name in defined:
+                continue
+            if any(c.get("kind") == "CompoundStmt" for c in kids(fn)) and re.search(r"\b%s\s*\(" % re.escape(name), src) \
+                    and re.search(r"\bcgio_\w+\s*\(", src[(loc_off((fn.get("range") or {}).get("begin")) or [0])[0] or 0:
+                                                            ((loc_off((fn.get("range") or {}).get("end")) or [0])[0] or 0) + 1]):
+                fns.append((f, fn, lines))
     out = []
-    for f, fn, lines in fns:
-        w = Walker(fn, f, lines, protos, defined)
+    for i, (f, fn, lines) in enumerate(fns):
+        w = Walker(fn, f, lines, protos, defined, restricted=i >= nmain)
         try:
             rows = w.run()
         except Exception as ex:                                    # whatever the walker chokes on is reported
@@ -857,7 +882,7 @@ def coq_gen(d):
             continue
         seen.add(f["name"])
         rows = ["mkS %d %d D%s K%s" % (ident(r["callee"]), max(1, r["line"]), r["deliv"], r["cont"]) for r in f["rows"]]
-        src = {"adf/ADF_interface.c": "FAdfApi", "adf/ADF_internals.c": "FAdfInt", "cgns_io.c": "FCgio"}[f["file"]]
+        src = {"adf/ADF_interface.c": "FAdfApi", "adf/ADF_internals.c": "FAdfInt", "cgns_io.c": "FCgio"}.get(f["file"], "FMll")
         sty = {"ptr": "SPtr", "ret": "SRet", "none": "SNone"}[f["style"]]
         lines.append(" mkF %d %s %s %s %s\n  [%s]" % (fid[f["name"]], cs(f["name"]), src, sty, "false" if f["static"] else "true",
                                                     ";\n   ".join(rows)))
